@@ -25,40 +25,58 @@ theorem lastInsnOf_cons_label (l : Nat) (rest : List FItem) (d : Nat) :
 theorem lastInsnOf_cons_insn (c : Nat) (ops : List Op) (rest : List FItem) (d : Nat) :
     lastInsnOf (.insn c ops :: rest) d = lastInsnOf rest c := rfl
 
-/-- the statements of a function body -/
+theorem bodyPending_map (body : List FItem) (pl : List Nat) :
+    ∃ ql : List Nat, bodyPending body (pl.map printLabel) = ql.map printLabel := by
+  induction body generalizing pl with
+  | nil => exact ⟨pl, rfl⟩
+  | cons x xs ih =>
+    cases x with
+    | label l =>
+      obtain ⟨ql, h⟩ := ih (pl ++ [l])
+      exact ⟨ql, by simpa [bodyPending] using h⟩
+    | insn c ops =>
+      obtain ⟨ql, h⟩ := ih []
+      exact ⟨ql, by simpa [bodyPending] using h⟩
+
+/-- the statements of a function body followed by `endfunc` (which defines the labels still pending,
+mir.c:6367-6374, and finishes the function) -/
 theorem elab_body {m : Module} (body : List FItem) :
     ∀ (st0 st : St) (f : Func) (pl : List Nat) (k0 k k' : Nat) (defs : List Nat),
       InFunc st0 st f → st0.cur = some m → k0 ≤ k → LabInv st.labels k0 k defs → st.nlab = k →
-      body.all (fitemOK f.regNames st.tab) = true → okTail body (!pl.isEmpty) = true →
+      body.all (fitemOK f.regNames st.tab) = true →
       canonLabels k0 k (pl ++ body.flatMap fitemLabels) = some k' →
       noDup (defs ++ pl ++ body.flatMap fitemDefs) = true →
-      ∃ st', elabStmts st (stmtsOfBody body (pl.map printLabel)) = .ok st' ∧
-        InFunc st0 st' { f with body := f.body ++ pl.map FItem.label ++ body.map normFItem } ∧
+      ∃ st', elabStmts st (stmtsOfBody body (pl.map printLabel)
+              ++ [⟨bodyPending body (pl.map printLabel), .endfunc, [], false⟩]) = .ok st' ∧
+        st'.done = st0.done ∧ st'.tab = st0.tab ∧ st'.func = none ∧
+        st'.cur = some { m with items := m.items ++
+          [.func (finishFunc { f with body := f.body ++ pl.map FItem.label ++ body.map normFItem })] } ∧
         st'.lastInsn = lastInsnOf body st.lastInsn ∧
         LabInv st'.labels k0 k' (defs ++ pl ++ body.flatMap fitemDefs) ∧ st'.nlab = k' ∧ k0 ≤ k' := by
   induction body with
   | nil =>
-    intro st0 st f pl k0 k k' defs hin hcur hk0 hinv hn _ ht hcan hnd
-    simp only [okTail, Bool.not_not, List.isEmpty_iff] at ht
-    subst ht
-    simp only [List.flatMap_nil, List.append_nil, canonLabels, Option.some.injEq] at hcan
-    subst hcan
-    exact ⟨st, rfl, by simpa using hin, rfl, by simpa using hinv, hn, hk0⟩
+    intro st0 st f pl k0 k k' defs hin hcur hk0 hinv hn _ hcan hnd
+    obtain ⟨st1, hd1, hin1, hli1, hinv1, hn1, hk1⟩ :=
+      defineLabels_list (f0 := f) pl st0 st f k0 k k' defs hin hk0 hinv hn (by simpa using hcan) (by simpa using hnd)
+    have hc1 : st1.cur = some m := hin1.cur.trans hcur
+    refine ⟨{ st1 with func := none, cur := some { m with items := m.items ++
+        [.func (finishFunc { f with body := f.body ++ pl.map FItem.label })] } }, ?_, hin1.done, hin1.tab, rfl,
+      by simp, by simpa [lastInsnOf] using hli1, by simpa using hinv1, hn1, hk1⟩
+    simp only [stmtsOfBody, bodyPending, List.nil_append, elabStmts_cons, elabStmt, hd1, elabOps, hin1.func, hc1]
+    simp [elabStmts]
   | cons x xs ih =>
-    intro st0 st f pl k0 k k' defs hin hcur hk0 hinv hn hok ht hcan hnd
+    intro st0 st f pl k0 k k' defs hin hcur hk0 hinv hn hok hcan hnd
     simp only [List.all_cons, Bool.and_eq_true] at hok
     cases x with
     | label l =>
-      have he : (!(pl ++ [l]).isEmpty) = true := by cases pl <;> simp
-      obtain ⟨st', h1, h2, h3, h4, h5, h6⟩ := ih st0 st f (pl ++ [l]) k0 k k' defs hin hcur hk0 hinv hn hok.2
-        (by rw [he]; simpa [okTail] using ht)
+      obtain ⟨st', h1, h2, h3, h4, h5, h6, h7, h8, h9⟩ := ih st0 st f (pl ++ [l]) k0 k k' defs hin hcur hk0 hinv hn hok.2
         (by simpa [List.flatMap_cons, fitemLabels, List.append_assoc] using hcan)
         (by simpa [List.flatMap_cons, fitemDefs, List.append_assoc] using hnd)
-      refine ⟨st', ?_, ?_, ?_, ?_, h5, h6⟩
-      · simpa [stmtsOfBody] using h1
-      · simpa [normFItem, List.append_assoc] using h2
-      · simpa [lastInsnOf_cons_label] using h3
-      · simpa [List.flatMap_cons, fitemDefs, List.append_assoc] using h4
+      refine ⟨st', ?_, h2, h3, h4, ?_, ?_, ?_, h8, h9⟩
+      · simpa [stmtsOfBody, bodyPending] using h1
+      · simpa [normFItem, List.append_assoc] using h5
+      · simpa [lastInsnOf_cons_label] using h6
+      · simpa [List.flatMap_cons, fitemDefs, List.append_assoc] using h7
     | insn c ops =>
       have hcan' : canonLabels k0 k ((pl ++ ops.flatMap opLabels) ++ xs.flatMap fitemLabels) = some k' := by
         simpa [List.flatMap_cons, fitemLabels, List.append_assoc] using hcan
@@ -68,18 +86,16 @@ theorem elab_body {m : Module} (body : List FItem) :
       obtain ⟨hnd1, _, _⟩ := noDup_append hnd'
       obtain ⟨st1, hs1, hin1, hli1, hinv1, hn1, hk1⟩ :=
         elab_insn_stmt hin hcur hk0 hinv hn pl c ops hok.1 hc1 hnd1
-      obtain ⟨st', h1, h2, h3, h4, h5, h6⟩ := ih st0 st1 _ [] k0 k1 k' (defs ++ pl) hin1 hcur hk1 hinv1 hn1
+      obtain ⟨st', h1, h2, h3, h4, h5, h6, h7, h8, h9⟩ := ih st0 st1 _ [] k0 k1 k' (defs ++ pl) hin1 hcur hk1 hinv1 hn1
         (by rw [hin1.tab, ← hin.tab]; exact hok.2)
-        (by simpa [okTail] using ht)
         (by simpa using hc2)
         (by simpa using hnd')
-      refine ⟨st', ?_, ?_, ?_, ?_, h5, h6⟩
-      · simp only [stmtsOfBody, elabStmts_cons, hs1]
+      refine ⟨st', ?_, h2, h3, h4, ?_, ?_, ?_, h8, h9⟩
+      · simp only [stmtsOfBody, bodyPending, List.cons_append, elabStmts_cons, hs1]
         simpa using h1
-      · simpa [normFItem, List.append_assoc] using h2
-      · rw [h3, hli1, lastInsnOf_cons_insn]
-      · simpa [List.flatMap_cons, fitemDefs, List.append_assoc] using h4
-
+      · simpa [normFItem, List.append_assoc] using h5
+      · rw [h6, hli1, lastInsnOf_cons_insn]
+      · simpa [List.flatMap_cons, fitemDefs, List.append_assoc] using h7
 
 /-! ## header -/
 
